@@ -33,7 +33,7 @@ TECH = "contracts (pre/post/exceptional post, constructive loop invariants, fram
 
 PROPERTIES = {
     "C01": {
-        "modules": ["ivp", "solver"], "level": "other", "floor": 500,
+        "modules": ["ivp", "solver", "purity"], "level": "other", "floor": 500,
         "assumptions": SOLVER_ASSUME, "trusted": [T["Z3"], T["LCONV"], T["DFT"], T["IVPC"]],
         "explanation": "PROVED for all inputs: each layer step applied by ivp_solver is linear in the state, reads only its own layer (profiles at nodes i/i+1, z[i+1]-z[i], the mode's wavenumbers) and agrees with exp(dz*M) of the stated per-mode BVP through first order for any in-layer sampling (orders 0,1 of the extracted step; consistency); both boundary conditions are imposed exactly by the shooting combination (clause of the spectral contract SC of S: Hq(bottom)=1 via Prop(0)=I and the two initial states, Hq(top)=Kz*lambda*Hp(top) algebraically), the eigenvalue is the principal root of the TOP-node coefficients; every retained non-constant bin is treated this way (SC for all sizes/halos/modes). ASSUMED: the convergence theorem L-conv turning consistency+stability into convergence. BOUNDED only: the quantitative rate (error <= 3*max(dz/z), ratio >= 2.5 when the layer thickness is quartered) against an independent Riccati integration (bounded/C01.py).",
         "level_text": "Discretisation contract proved for all inputs (consistency, locality, exact boundary conditions, spectral assembly); convergence follows by an assumed textbook theorem; the numerical rate is a bounded refinement study, labelled bounded.",
@@ -47,21 +47,21 @@ PROPERTIES = {
         "level_note": "A1-A8, D4 assumed (native conformance in bounded/C02.py); closures/precisions enter only through symbolic profiles and A1.",
     },
     "C03": {
-        "modules": ["solver", "lemmas", "ivp"], "level": "proof", "floor": 1500,
+        "modules": ["solver", "lemmas", "ivp", "purity"], "level": "proof", "floor": 1500,
         "assumptions": SOLVER_ASSUME, "trusted": [T["Z3"], T["D1"], T["DFT"], T["IVPC"]],
         "explanation": "DC clauses of SC: fftq[k,0,0] = S00 for every level (numeric and analytic), fftp[k,0,0] = p000 - S00*R(level_k) with R the trapezoid resistance (loop invariant of the mean-mode loop) or h/Kz (analytic), phase = 1 at DC; footprint source = 1/(nxe*nye) so N*DC = 1; halo == explicit padding as a lemma over the contract (same dx, dy, padded sizes, spectra; crop).",
         "level_text": "Conservation statements are postconditions/loop invariants of the real solver proved for all inputs; mean <-> DC bin is textbook (D1).",
         "level_note": "A1-A8, D1 assumed.",
     },
     "C04": {
-        "modules": ["solver", "ivp", "lemmas"], "level": "proof", "floor": 700,
+        "modules": ["solver", "ivp", "lemmas", "purity"], "level": "proof", "floor": 700,
         "assumptions": SOLVER_ASSUME, "trusted": [T["Z3"], T["D2"], T["DFT"], T["IVPC"]],
         "explanation": "SC gives fftq = ret*S*Hq*Phi and fftp = ret*(DC ? p000 - S00*R : S*Hp)*Phi with Hq, Hp, R, Phi, ret free of the source and of the background (frame: the specification terms do not mention q0/p000; the code equals them); ivp_solver is linear in its initial state (extracted step); bilinearity lemma over SC; footprint mode has S = 1/N (no source values).",
         "level_text": "Linearity is a consequence of the spectral contract proved on the real code plus linearity of the DFT (D2, textbook).",
         "level_note": "A1-A8, D2 assumed.",
     },
     "C05": {
-        "modules": ["ivp", "solver", "lemmas"], "level": "proof", "floor": 500,
+        "modules": ["ivp", "solver", "lemmas", "purity"], "level": "proof", "floor": 500,
         "assumptions": SOLVER_ASSUME, "trusted": [T["Z3"], T["LCONV"], T["DFT"], T["IVPC"]],
         "explanation": "Analytic branch: SC[analytic] states Hq = exp(-lambda*h), Hp = Hq/(Kz*lambda), mean p000 - S00*h/Kz, assembled through the SAME padding/truncation/shift/crop obligations as the numerical mode; the closed form solves the BVP (lemma). Design order: the h^k coefficients (k=0..3) of every entry of the step matrix extracted from the loop body equal those of exp(h*M) (16 exact polynomial identities). 'About eightfold' is the corollary via L-conv; measured only by the bounded stand-in.",
         "level_text": "Closed form and third-order conditions proved exactly on the real code; the measured ratio is bounded.",
@@ -75,21 +75,21 @@ PROPERTIES = {
         "level_note": "A1-A8, D3/D5 assumed.",
     },
     "C07": {
-        "modules": ["solver", "ivp", "symmetry"], "level": "proof", "floor": 650,
+        "modules": ["solver", "ivp", "symmetry", "purity"], "level": "proof", "floor": 650,
         "assumptions": SOLVER_ASSUME, "trusted": [T["Z3"], T["D5"], T["DFT"], T["IVPC"]],
         "explanation": "Relational identities on the code's own terms: the extracted step matrix, the eigenvalue argument, the wavenumber grids, retained sets, pad widths and phases under mirror-x/y, axis swap, length similarity and speed similarity; lifted through the layers by induction over Prop (base + step). With D5 the fields mirror/transpose.",
         "level_text": "Symmetry identities are exact polynomial/LIA identities on terms extracted from the real code.",
         "level_note": "A1-A8, D5 assumed; Nyquist bins excepted as in the statement.",
     },
     "C10": {
-        "modules": ["ivp", "solver", "interface"], "level": "proof", "floor": 1300,
+        "modules": ["ivp", "solver", "interface", "purity"], "level": "proof", "floor": 1300,
         "assumptions": SOLVER_ASSUME, "trusted": [T["Z3"], T["DFT"], T["IVPC"]],
         "explanation": "ivp_solver: out[k] = Prop(levels[k]).init for every k, any order, duplicates (constructive loop invariants of all three loops); S: mean-mode bookkeeping by invariant, SC's level index is levels[k] in every clause (numeric and analytic), Z[k] = z[levels[k]], scalar level = one-element list; nothing in SC couples different k (multi == single); interface passes output_levels / full range / nz.",
         "level_text": "Level bookkeeping proved by loop invariants on the real loops for symbolic numbers of levels and nodes.",
         "level_note": "A1-A6.",
     },
     "C11": {
-        "modules": ["solver", "ivp"], "level": "proof", "floor": 1500,
+        "modules": ["solver", "ivp", "purity"], "level": "proof", "floor": 1500,
         "assumptions": SOLVER_ASSUME, "trusted": [T["Z3"], T["DFT"], T["IVPC"]],
         "explanation": "GEO in linear integer arithmetic over symbolic nx, ny, px, py, modes: raises exactly for odd modes / unknown precision / odd gap after the per-axis clamp, otherwise returns shape squeeze((m,ny,nx)) with X=i*dx, Y=j*dy; registration of every retained bin in and out (SC at fresh symbolic bins); low-pass: SC depends on the mode counts only through the retained set; clamp per axis.",
         "level_text": "Shape, registration and exceptional behaviour proved for all grid sizes, halos and mode counts.",
@@ -148,28 +148,28 @@ PROPERTIES.update({
         "level_note": "A1, A2 (np.arange length), A8 (named axiom instances incl. derivative rules).",
     },
     "C17": {
-        "modules": ["geo", "parser"], "level": "other", "floor": 20,
+        "modules": ["geo", "parser", "purity"], "level": "other", "floor": 20,
         "assumptions": COMMON + [A["A8"]], "trusted": [T["Z3"]],
         "explanation": "PROVED: both round trips (lat/lon -> xy -> lat/lon and xy -> lat/lon -> xy) are identities whenever cos(ref_lat) != 0, the origin maps to (0,0), x strictly increases eastward and y northward (cos(ref_lat) > 0 for |ref_lat| < 90), y independent of longitude, array arguments elementwise, tower coordinates filled from the forward map at configuration time. NOT decided: agreement with great-circle distance/bearing to 0.1 % / 0.1 deg (transcendental inequality over a 4-d box): BOUNDED sample against the haversine formulas (bounded/C17.py).",
         "level_text": "Inverse pair and orientation proved; great-circle accuracy bounded.",
         "level_note": "A1, A8 (cos positive at the reference latitude).",
     },
     "C18": {
-        "modules": ["ioc"], "level": "other", "floor": 400,
+        "modules": ["ioc", "purity"], "level": "other", "floor": 400,
         "assumptions": COMMON, "trusted": [T["Z3"], "xarray.Dataset(...).to_netcdf(zlib) followed by xr.open_dataset is the identity on float64 variables/coordinates and string coordinates (bounded conformance in bounded/C18.py)"],
         "explanation": "PROVED up to the xarray.Dataset call, for symbolic numbers of towers, steps and grid sizes, 2-D and 3-D, ustar / z0 / both forcings: footprint/concentration[time, tower] hold that tower's field at that step (loop invariants of the three loops), dims tuple matches the array axes, x/y/z coordinates, time labels, tower labels, tower_lat/lon/z belong to the tower NAMED by the label (precondition from C14: results keyed in configuration order), per-step met values incl. z0 for roughness-length forcings, ustar not invented; load = existence check + open_dataset. TRUSTED with bounded conformance: the NetCDF write/read itself.",
         "level_text": "Array assembly and labelling proved; file format round trip trusted and exercised by the bounded stand-in.",
         "level_note": "netCDF4/xarray trusted.",
     },
     "C19": {
-        "modules": ["km"], "level": "other", "floor": 30,
+        "modules": ["km", "purity"], "level": "other", "floor": 30,
         "assumptions": COMMON + [A["A2"], A["A8"]], "trusted": [T["Z3"]],
         "explanation": "PROVED: the stability helpers return the published expressions per branch for float AND integer heights (no narrowing store), grid cell centres, downwind cells zero, negative-U path returns an empty footprint only when U < 0, symmetry of the closed form about the wind axis, rotations by multiples of 90 degrees are signed permutations of the grid axes, estimateZ0 without smoothing inverts the diabatic log law. The cell-by-cell closed form (power-product identity over ~10 nested quantities) is attempted by the exact normaliser in the thorough tier and otherwise covered by the bounded stand-in; convergence of the cell sum to the incomplete-gamma mass and median-smoothed estimateZ0 are bounded only.",
         "level_text": "Helper functions, geometry and inversion proved; the full closed-form product and the limit statements are bounded.",
         "level_note": "A1, A2, A8.",
     },
     "C20": {
-        "modules": ["utilsc", "contour"], "level": "proof", "floor": 60,
+        "modules": ["utilsc", "contour", "purity"], "level": "proof", "floor": 60,
         "assumptions": COMMON + [A["A3"]], "trusted": [T["Z3"], "np.argsort returns a permutation sorting its argument (tie order unspecified); np.cumsum = prefix sums; np.searchsorted(side=left) = least index with a[k] >= v on a sorted array; ravel/reshape are mutually inverse row-major bijections"],
         "explanation": "get_source_area in rank form: with ord the descending-g order, out.flat[ord[r]] = sum of f over the r cells ranked above (exclusive cumulative sum), cumulated array = f in that order, result has g's shape, integer-typed g does not truncate; base functions equal their formulas; extract_percentile_contour: descending cumulative sums times cell area are searched for p*total with side=left (fewest cells), area = (k+1)*cell area, level = smallest selected value, 2-D/3-D fields and 1-D/2-D/3-D coordinates, level slicing. Set-form consequences (ties, monotonicity, invariance) are lemmas of the rank form (adjacent instances discharged; the general transitive statements are exercised by the brute-force bounded oracle).",
         "level_text": "Rank/prefix-sum form proved on the real code under the argsort/cumsum/searchsorted contracts.",
@@ -180,7 +180,7 @@ PROPERTIES.update({
 for _k, _p in PROPERTIES.items():
     _p.setdefault("np_conformance", _k in ("C01", "C02", "C03", "C04", "C05", "C06", "C07", "C10", "C11", "C12", "C15", "C18", "C19", "C20"))
 for _k, _p in PROPERTIES.items():
-    _p.setdefault("dft_conformance", _k in ("C02", "C03", "C04", "C06", "C07", "C12"))
+    _p.setdefault("dft_conformance", _k in ("C01", "C02", "C03", "C04", "C05", "C06", "C07", "C10", "C11", "C12"))
 for _p in PROPERTIES.values():
     _p.setdefault("technique", TECH)
     _p.setdefault("bounded", True)
